@@ -80,8 +80,8 @@ def expected_objects(prog, outs):
                 an = A_t['params'].get(p)
                 if an is None or an not in A_t['attrs']:
                     continue
-                if raw['t'] == 'none':
-                    continue
+                if raw['t'] == 'none' or (raw['t'] == 'ref' and raw['i'] not in objs):
+                    continue        # a reference to an object whose creation was rejected is None in the program
                 if raw['t'] in ('setup', 'dict'):
                     if raw['value'] is not None:
                         e.assign.setdefault(an, {})['value'] = raw['value']
@@ -95,8 +95,17 @@ def expected_objects(prog, outs):
         elif op == 'assign' and o[0] == 'ok':
             e = objs.get(s['obj'])
             if e is not None:
-                e.assign.setdefault(s['attr'], {})[s['part']] = s['raw']
+                raw = s['raw']
+                if raw['t'] == 'ref' and raw['i'] not in objs:
+                    raw = {'t': 'none'}     # the rejected creation left no object: the program assigns None
+                e.assign.setdefault(s['attr'], {})[s['part']] = raw
     return files
+
+
+def expected_at(prog, outs, step):
+    """Expectations for the file written by the (successful) write at index `step`: calls made after it are not in it."""
+    files = expected_objects(prog[:step + 1], outs[:step + 1])
+    return files[-1] if files else {}
 
 
 # ---- semantic comparison of an assigned RAW value with decoded values ----
@@ -305,7 +314,7 @@ def check_identity_refs(ctx, dfile, det, check_origins=True, check_unique=True):
                     ctx.violation('indirect-record-references-undefined-object', {**det, 'logical_file': li, 'type': ty, 'reference': filemodel._obname(hdr[1][0])})
 
 
-def check_order(ctx, dfile, det, headers):
+def check_order(ctx, dfile, det, headers, defining=None):
     """C09 on one decoded file. headers: per logical file (id, sequence number)."""
     lfs = dfile.logical_files()
     if len(lfs) != len(headers):
@@ -324,6 +333,8 @@ def check_order(ctx, dfile, det, headers):
             ctx.violation('origin-does-not-follow-header', {**det, 'logical_file': li})
             continue
         do = recs[1].objects[0]
+        if defining is not None and li < len(defining) and defining[li] is not None and do.name[2] != defining[li]:
+            ctx.violation('first-origin-object-is-not-the-defining-origin', {**det, 'logical_file': li, 'first_written': do.name, 'defining': defining[li]})
         fid, fsn = do.attrs.get('FILE-ID'), do.attrs.get('FILE-SET-NUMBER')
         if fid is None or fid.values != [('text', hid)]:
             ctx.violation('defining-origin-file-id-differs-from-header-id', {**det, 'logical_file': li, 'file_id': repr(fid)})
